@@ -1,0 +1,43 @@
+// Copyright (C) 2022 The go-redis Authors All rights reserved.
+//
+// Licensed under the Apache License, Version 2.0 (the "License");
+// you may not use this file except in compliance with the License.
+// You may obtain a copy of the License at
+//
+//    http://www.apache.org/licenses/LICENSE-2.0
+//
+// Unless required by applicable law or agreed to in writing, software
+// distributed under the License is distributed on an "AS IS" BASIS,
+// WITHOUT WARRANTIES OR CONDITIONS OF ANY KIND, either express or implied.
+// See the License for the specific language governing permissions and
+// limitations under the License.
+
+//go:build verif
+
+package redis
+
+import (
+	"crypto/tls"
+	"net"
+)
+
+// This file is compiled only with the "verif" build tag. It exposes the
+// private connection and accept loops to external verification harnesses
+// without changing them: every function below only forwards to the real
+// implementation.
+
+// VerifServeConn serves one caller-supplied connection synchronously through
+// the real connection loop. tlsState may be nil (plain connection).
+func (server *Server) VerifServeConn(conn net.Conn, tlsState *tls.ConnectionState) error {
+	return server.receive(conn, tlsState)
+}
+
+// VerifServe runs the real plain accept loop in the calling goroutine.
+func (server *Server) VerifServe() error {
+	return server.serve()
+}
+
+// VerifTLSServe runs the real TLS accept loop in the calling goroutine.
+func (server *Server) VerifTLSServe() error {
+	return server.tlsServe()
+}
